@@ -92,18 +92,21 @@ theorem enclS.inB_of_ne {A : IVal K} {v : FVal K} (h : enclS A v) (hv : v ≠ na
   · exact h
 
 @[simp] theorem b_of (b : Bnd K) (u : Bool) : (IVal.of b u).b = b := rfl
-@[simp] theorem mn_of (b : Bnd K) (u : Bool) : (IVal.of b u).mn = u := rfl
+@[simp] theorem mn_of (b : Bnd K) (u : Bool) :
+    (IVal.of b u).mn = (u || b.lo.isNan || b.hi.isNan) := rfl
 
 /-- assembling a result: NaN forces the flag, a non-NaN value is inside the bounds -/
 theorem enclS_of {bnd : Bnd K} {u : Bool} {r : FVal K}
     (hnan : r = nan → u = true) (hin : r ≠ nan → inBb bnd r) : enclS (IVal.of bnd u) r := by
   by_cases h : r = nan
-  · exact Or.inl ⟨hnan h, h⟩
+  · exact Or.inl ⟨by simp [hnan h], h⟩
   · exact Or.inr (hin h)
 
 theorem enclS_mk {lo hi : FVal K} {u : Bool} {r : FVal K}
-    (hnan : r = nan → u = true) (hin : r ≠ nan → inBb ⟨lo, hi⟩ r) : enclS ⟨lo, hi, u⟩ r :=
-  enclS_of (bnd := ⟨lo, hi⟩) hnan hin
+    (hnan : r = nan → u = true) (hin : r ≠ nan → inBb ⟨lo, hi⟩ r) : enclS ⟨lo, hi, u⟩ r := by
+  by_cases h : r = nan
+  · exact Or.inl ⟨hnan h, h⟩
+  · exact Or.inr (hin h)
 
 /-- generic binary opcode whose point function propagates NaN -/
 theorem bin_enclS {A B : IVal K} {a b : FVal K} {bnd : Bnd K} {u : Bool} (p : FVal K → FVal K → FVal K)
@@ -307,9 +310,7 @@ theorem mul_enclS (hS : BoostSound Bo P) {A B : IVal K} {a b : FVal K}
       simp [this, z.1, z.2]
   · intro h1 h2 hn; exact hS.mul _ _ _ _ h1 h2 hn
 
-/-- `operator-` under the missing hypothesis: not both upper bounds `+∞` -/
-theorem sub_enclS_partial (hS : BoostSound Bo P) {A B : IVal K} {a b : FVal K}
-    (hsafe : ¬ (A.hi = pinf ∧ B.hi = pinf))
+theorem sub_enclS (hS : BoostSound Bo P) {A B : IVal K} {a b : FVal K}
     (ha : enclS A a) (hb : enclS B b) : enclS (isub Bo A B) (FVal.sub a b) := by
   unfold isub
   refine bin_enclS FVal.sub ?_ ?_ ?_ ?_ ?_ ha hb
@@ -318,7 +319,7 @@ theorem sub_enclS_partial (hS : BoostSound Bo P) {A B : IVal K} {a b : FVal K}
   · intro h; simp [h]
   · intro h1 h2 hn
     rcases sub_eq_nan h1.1 h2.1 hn with ⟨rfl, rfl⟩ | ⟨rfl, rfl⟩
-    · exact absurd ⟨h1.hi_pinf, h2.hi_pinf⟩ hsafe
+    · simp [h1.hi_pinf, h2.hi_pinf, FVal.isPinf]
     · simp [h1.lo_ninf, h2.lo_ninf, FVal.isNinf]
   · intro h1 h2 hn; exact hS.sub _ _ _ _ h1 h2 hn
 
@@ -439,7 +440,7 @@ theorem nanfill_enclS (hS : BoostSound Bo P) {A B : IVal K} {a b : FVal K}
     · subst h1
       simp only [FVal.isNan, if_true]
       rcases hb with ⟨hbm, rfl⟩ | hb
-      · exact Or.inl ⟨hbm, rfl⟩
+      · exact Or.inl ⟨by simp [hbm], rfl⟩
       · exact Or.inr (hS.hull_r _ _ _ hb)
     · have : a.isNan = false := by cases a <;> simp_all [FVal.isNan]
       simp only [this]
@@ -456,10 +457,27 @@ theorem flt_asymm {x y : FVal K} (h : FVal.lt x y = true) : FVal.lt y x = false 
 
 theorem fle_refl_fin (x : K) : FVal.le (fin x) (fin x) = true := by simp
 
-/-- `compare` under the missing hypothesis: neither operand flagged -/
-theorem compare_enclS_partial {A B : IVal K} {a b : FVal K}
-    (hA : A.mn = false) (hB : B.mn = false)
+theorem pcompare_range (a b : FVal K) :
+    inBb (⟨negOneV, oneV⟩ : Bnd K) (pcompare a b) := by
+  have m1 : (-1 : K) ≤ 0 := by linarith [zero_lt_one (α := K)]
+  have m2 : (0 : K) ≤ 1 := zero_le_one
+  have m3 : (-1 : K) ≤ 1 := by linarith
+  unfold pcompare
+  split
+  · exact ⟨by simp, by simp [negOneV], by simp [negOneV, oneV, m3]⟩
+  · split
+    · exact ⟨by simp, by simp [negOneV, oneV, m3], by simp [oneV]⟩
+    · exact ⟨by simp, by simp [negOneV, m1], by simp [oneV, m2]⟩
+
+/-- `compare`: a maybe-NaN operand widens the result to `[−1,1]` (the kernel returns 0 for NaN) -/
+theorem compare_enclS {A B : IVal K} {a b : FVal K}
     (ha : enclS A a) (hb : enclS B b) : enclS (icompare A B) (pcompare a b) := by
+  by_cases hm : (A.mn || B.mn) = true
+  · unfold icompare
+    simp only [hm, if_true]
+    exact Or.inr (pcompare_range a b)
+  have hA : A.mn = false := by cases h : A.mn <;> simp_all
+  have hB : B.mn = false := by cases h : B.mn <;> simp_all
   have h1 : inB A a := by
     rcases ha with ⟨h, _⟩ | h
     · rw [hA] at h; exact Bool.noConfusion h
@@ -472,6 +490,7 @@ theorem compare_enclS_partial {A B : IVal K} {a b : FVal K}
   have m2 : (0 : K) ≤ 1 := zero_le_one
   have m3 : (-1 : K) ≤ 1 := by linarith
   unfold icompare pcompare
+  simp only [hA, hB, Bool.or_self, Bool.false_eq_true, if_false]
   by_cases c1 : FVal.lt A.hi B.lo = true
   · have : FVal.lt a b = true := flt_of_lt_of_le (flt_of_le_of_lt h1.2.2 c1) h2.2.1
     simp only [c1, this, if_true]
